@@ -168,7 +168,8 @@ class Run:
             return
         t0 = time.time()
         self.solver.push()
-        self.solver.add(z3.BoolVal(False) if c is False else z3.Not(c))
+        if c is not False:
+            self.solver.add(z3.Not(c))          # claim False: violated iff the path itself is feasible
         r = self.solver.check()
         secs = time.time() - t0
         if r == z3.unsat:
